@@ -39,6 +39,7 @@ Proof.
   destruct (match ch_rsl ch with Some r0 => _ | None => _ end) as [[]|]; [|discriminate H]. cbn [bind] in H.
   assert (FULL : forall r', full_handshake c2 s2 = Ok r' -> views_agree_core (rs_client r') (rs_server r')).
   { intros r' Hr. exact (proj2 (full_handshake_agrees _ _ _ Hr)). }
+  destruct (t && (st_maxV (cl_set c2) =? 0)); [exact (FULL r H)|].
   destruct (3 <? v); [exact (FULL r H)|].
   destruct (negb (memZ (vw_suite ss) (server_suites s2 ch v))); [exact (FULL r H)|].
   destruct (negb (memZ (vw_suite ss) (ch_suites ch))); [discriminate H|].
